@@ -443,3 +443,63 @@ func NewSlidingWindow
   modifies *
   ensures inv: result1 == nil ==> result0 != nil && swInv(result0) && !result0.initialized && len(result0.data) == 0
 @*/
+
+/*@
+// ---------------------------------------------------------------- counting window (C09)
+guarded_by CountingWindow.mu: keyedBuffer, keyedCount, lastActive
+immutable CountingWindow: threshold, config
+monitor CountingWindow.mu inv cwInv
+
+pred cwInv(cw) := cw.threshold >= 1 && cw.keyedBuffer != nil && cw.keyedCount != nil && cw.lastActive != nil
+  && forallv(k, "", dom(cw.keyedBuffer, k) ==> len(cw.keyedBuffer[k]) < cw.threshold)
+  && forallv(k, "", dom(cw.keyedCount, k) ==> dom(cw.keyedBuffer, k) && cw.keyedCount[k] == len(cw.keyedBuffer[k]))
+
+extern (*CountingWindow).getKey
+  props C09
+  option pure
+
+func (*CountingWindow).sendResult
+  props C09
+  ensures true
+
+func (*CountingWindow).createSlot
+  props C09
+  ensures result == nil || fresh(result)
+
+func (*CountingWindow).SetCallback
+  props C09
+  modifies cw.callback
+  ensures cw.callback == callback
+
+func (*CountingWindow).Start$1
+  props C09
+  modifies *
+  before createSlot the-whole-buffer-of-the-key-fires: len(buf) == cw.threshold && buf[len(buf) - 1] == row
+  before createSlot count-mirrors-buffer: cw.keyedCount[key] == len(buf)
+  before sendResult batch-is-exactly-n-rows: len(data) == cw.threshold
+  before sendResult batch-is-the-buffer-in-arrival-order: forall(i, 0, cw.threshold, data[i].Data == buf[i].Data && data[i].Timestamp == buf[i].Timestamp && data[i].Slot == slot)
+  loop 2 invariant len(data) == cw.threshold && forall(j, 0, $i, data[j].Data == buf[j].Data && data[j].Timestamp == buf[j].Timestamp && data[j].Slot == slot) && forall(j, $i, cw.threshold, data[j].Data == buf[j].Data && data[j].Timestamp == buf[j].Timestamp)
+
+func (*CountingWindow).reapIdleKeys
+  props C09
+  acquires cw.mu
+  modifies mapof(cw.keyedBuffer), mapof(cw.keyedCount), mapof(cw.lastActive)
+  ensures only-idle-keys-reaped: forallv(k, "", old(dom(cw.keyedBuffer, k)) && !dom(cw.keyedBuffer, k) ==> old(dom(cw.lastActive, k)) && now - old(cw.lastActive[k]) > cw.countStateTTL)
+  loop 1 invariant cwInv(cw) && held(cw.mu) && wheld(cw.mu)
+  loop 1 invariant forallv(k, "", old(dom(cw.keyedBuffer, k)) && !dom(cw.keyedBuffer, k) ==> old(dom(cw.lastActive, k)) && now - old(cw.lastActive[k]) > cw.countStateTTL)
+  loop 1 invariant forallv(k, "", dom(cw.keyedBuffer, k) ==> old(dom(cw.keyedBuffer, k)) && cw.keyedBuffer[k] == old(cw.keyedBuffer[k]))
+  loop 1 invariant forallv(k, "", dom(cw.keyedCount, k) ==> old(dom(cw.keyedCount, k)) && cw.keyedCount[k] == old(cw.keyedCount[k]))
+  loop 1 invariant forallv(k, "", dom(cw.lastActive, k) ==> old(dom(cw.lastActive, k)) && cw.lastActive[k] == old(cw.lastActive[k]))
+
+func (*CountingWindow).Reset
+  props C09
+  acquires cw.mu
+  modifies cw.dataBuffer, cw.keyedBuffer, cw.keyedCount, cw.sentCount, cw.droppedCount
+  ensures no-buffered-rows-survive: forallv(k, "", !dom(cw.keyedBuffer, k) && !dom(cw.keyedCount, k))
+
+func NewCountingWindow
+  props C09
+  modifies *
+  ensures inv: result1 == nil ==> result0 != nil && cwInv(result0)
+  ensures positive-threshold: result1 == nil ==> result0.threshold >= 1
+@*/
